@@ -591,6 +591,7 @@ impl Game {
                 let Some(nx) = self.take(a, rep) else { continue };
                 let Some(nbd) = arr_raw(&words(nx.piece_board())) else {
                     rep.fail("C10", "not-well-formed-after-step", self, enc_action(a));
+                    rep.fail("C02", "step-leaves-inconsistent-bitboards", self, format!("{}: the per-type, per-side and all-pieces boards no longer describe one piece per square", enc_action(a)));
                     continue;
                 };
                 let dest = nb(i, dn);
